@@ -73,8 +73,12 @@ type rd struct {
 	model  *ref.Prng
 	ls, ms *mon.Script
 	start  time.Time
+	opened time.Time // the constructor returned (upper bound of the wrapper's first reseed time)
 	trace  []string
 	over   bool
+	// decidable, when set, replaces the default stall rule of fail: it reports whether the monotonic
+	// clock brackets make the current verdict decidable (time-rule workload)
+	decidable func() bool
 }
 
 func (d *rd) logf(format string, a ...any) { d.trace = append(d.trace, fmt.Sprintf(format, a...)) }
@@ -84,7 +88,12 @@ func (d *rd) logf(format string, a ...any) { d.trace = append(d.trace, fmt.Sprin
 // a stall of more than 6 s and cannot be decided).
 func (d *rd) fail(kind, format string, a ...any) {
 	d.over = true
-	if d.g.mode == ref.GM && time.Since(d.start) > d.lv.ref.Time {
+	if d.decidable != nil {
+		if !d.decidable() {
+			d.c.Inconclusive("the clock brackets do not decide this verdict (stall): %s", fmt.Sprintf(format, a...))
+			return
+		}
+	} else if d.g.mode == ref.GM && time.Since(d.start) > d.lv.ref.Time {
 		d.c.Inconclusive("case ran for %v (GM time interval %v): %s", time.Since(d.start), d.lv.ref.Time, fmt.Sprintf(format, a...))
 		return
 	}
@@ -122,6 +131,7 @@ func (d *rd) open(entry, strength int, pers []byte) bool {
 	if !c.Call("constructor", func() { d.lib, d.fn, err = newLibPrng(d.g, entry, d.ls, strength, d.lv, pers) }) {
 		return false
 	}
+	d.opened = time.Now()
 	var merr error
 	d.model, merr = newModelPrng(d.g, scriptSource(d.ms), strength, d.lv, pers)
 	d.logf("%s(strength=%d, pers=%d)", d.fn, strength, len(pers))
